@@ -71,7 +71,9 @@ Theorem C10_compile_wellformed_partial :
                    (0 <= z)%Z /\ In (Z.to_nat z) (map fst (positions is))) /\
       (forall h pos, In (h, pos) (p_labels B) -> In (N.to_nat pos) (map fst (positions is))) /\
       (forall a l, In (a, l) (p_trace B) -> In (N.to_nat a) (map fst (positions is))).
-Proof. exact compile_wellformed_partial. Qed.
+Proof.
+  intros M o B H Hl. destruct (compile_wellformed_partial M o B H Hl) as [is Hw]. exists is. exact Hw.
+Qed.
 Print Assumptions C10_compile_wellformed_partial.
 
 (* the model reproduces finding A-23: a 253-byte string literal compiles into a program that is
@@ -89,3 +91,31 @@ Theorem C10_A24_witness :
             wellformed B /\ ~ trace_complete B.
 Proof. exact a24_witness. Qed.
 Print Assumptions C10_A24_witness.
+
+(* Strengthening: when the literals of the program fit their machine types ([program_in_range], an
+   executable condition that holds for every module built from the Rust types and is checked on every
+   generated case), every emitted instruction has in-range operands, so the decoder returns exactly
+   the emitted instruction list - together with the emission invariants above. *)
+From Cao Require Import CompilerOk.
+Theorem C10_compile_wellformed_partial_strong :
+  forall (M : module) (o : options) (B : compiled),
+    compile M o = COk B ->
+    program_in_range M o = true ->
+    (N.of_nat (length (p_bytecode B)) < 2147483648)%N ->
+    exists is : list instr,
+      Forall instr_ok is /\
+      decode (p_bytecode B) = Some (positions is) /\
+      p_bytecode B = encode is /\
+      (exists is', is = is' ++ [IExit]) /\
+      (forall i z, In i is -> jump_target i = Some z ->
+                   (0 <= z)%Z /\ In (Z.to_nat z) (map fst (positions is))) /\
+      (forall h pos, In (h, pos) (p_labels B) -> In (N.to_nat pos) (map fst (positions is))) /\
+      (forall a l, In (a, l) (p_trace B) -> In (N.to_nat a) (map fst (positions is))).
+Proof.
+  intros M o B H Hr Hl.
+  destruct (compile_wellformed_partial_strong M o B H Hr Hl) as (is & Hok & Hd & Hb & _ & Hrest).
+  destruct Hrest as (He & Hj & Hlab & Htr).
+  exists is. split; [exact Hok|]. split; [exact Hd|]. split; [exact Hb|].
+  split; [exact He|]. split; [exact Hj|]. split; [exact Hlab | exact Htr].
+Qed.
+Print Assumptions C10_compile_wellformed_partial_strong.
